@@ -24,6 +24,58 @@ func init() {
 		i = strings.TrimSuffix(strings.TrimSuffix(i, ";END"), "END")
 		return i, "-", ""
 	}
+	// json.tokpair <hex bad> <hex doc1> <hex doc2>: history — a tokenizer fails inside a container and is re-armed with Reset
+	// (also: is abandoned half-way); afterwards two tokenizers are alive at once and advanced alternately. Each must produce
+	// the stream it produces alone: pooled nesting stacks are never shared.
+	ops["json.tokpair"] = func(a []string) (string, string, string) {
+		bad, d1, d2 := unhx(a[0]), unhx(a[1]), unhx(a[2])
+		alone1 := tokStream(json.NewTokenizer(d1), d1, true)
+		alone2 := tokStream(json.NewTokenizer(d2), d2, true)
+		for round := 0; round < 3; round++ {
+			t0 := json.NewTokenizer(bad)
+			for t0.Next() {
+			}
+			t0.Reset(d1)
+			if round == 1 {
+				for k := 0; k < 2 && t0.Next(); k++ {
+				}
+				t0.Reset(bad)
+				for t0.Next() {
+				}
+				t0.Reset(d1)
+			}
+			ta, tb := json.NewTokenizer(d2), json.NewTokenizer(d1)
+			var s0, sa, sb []string
+			rec := func(t *json.Tokenizer) string {
+				return fmt.Sprintf("%d/%s/%d/%d/%s", t.Delim, hx(t.Value), t.Depth, t.Index, b01(t.IsKey))
+			}
+			for more := true; more; {
+				more = false
+				if t0.Next() {
+					s0, more = append(s0, rec(t0)), true
+				}
+				if ta.Next() {
+					sa, more = append(sa, rec(ta)), true
+				}
+				if tb.Next() {
+					sb, more = append(sb, rec(tb)), true
+				}
+			}
+			strip := func(s string) string { // alone* carry /remaining and the END marker
+				var out []string
+				for _, p := range strings.Split(s, ";") {
+					if f := strings.Split(p, "/"); len(f) >= 5 {
+						out = append(out, strings.Join(f[:5], "/"))
+					}
+				}
+				return strings.Join(out, ";")
+			}
+			if strings.Join(s0, ";") != strip(alone1) || strings.Join(sb, ";") != strip(alone1) || strings.Join(sa, ";") != strip(alone2) {
+				return fmt.Sprintf("interleaved-tokenizers-disturb-each-other round %d", round), "ok", ""
+			}
+		}
+		return "ok", "ok", ""
+	}
 	// accessor and stdlib-token-stream agreement, compact-concatenation, Reset — all in one composite observable
 	ops["json.tokcheck"] = func(a []string) (string, string, string) {
 		return tokCheck(unhx(a[0])), "ok", ""
@@ -231,6 +283,12 @@ func runC17(h *H) {
 			h.Count("valid_docs", 1)
 		}
 	}
+	bads := []string{`{"a":[[1,2,`, `[[[`, `{"a":{"b":[}`, `[1,2}`, `{"k":[{"x":`}
+	for i := 0; i < 60; i++ {
+		d1, d2 := h.genJSONNested(), h.genJSONNested()
+		h.DoRisky("json.tokpair", hx([]byte(bads[i%len(bads)])), hx(d1), hx(d2))
+	}
+	h.DoRisky("json.tokpair", hx([]byte(`{"a":[[1,2,`)), hx([]byte(`[[[1,2],[3,[4,5]]],[6],7]`)), hx([]byte(`{"a":{"b":[1,{"c":2}]},"d":[[]]}`)))
 	for _, s := range []string{`[{},"a"]`, `{"a":{},"b":[{}]}`, `[[],[[]],{}]`, `{"k":[1,{"x":null}],"z":true}`, ``, ` `, `,`, `:`, `]`, `}`, `[}`, `{]`,
 		`[1,]`, `{"a"}`, `"abc`, `tru`, `1e`, `-`, `01`, `[,]`, `[1 2]`, strings.Repeat("[", 300) + strings.Repeat("]", 300), `{"a":1,"a":2}`, "\"\\ud800\"", `1 2 3`} {
 		h.DoRisky("json.tokens", hx([]byte(s)))
